@@ -473,6 +473,47 @@ def region_case(r):
     return Case("region", steps, {"kind": "region", "a": list(a), "b": list(b)})
 
 
+# ------------------------------------------------------------------------------- printer suite
+
+def rp_digest(p):
+    def ax(a):
+        return "%s,%s,%s" % (impl.fnum(None if p.pos[a] is None else p.pos[a] + 0.0), impl.hexf(p.off[a] + 0.0),
+                             impl.hexf(p.hoff[a] + 0.0))
+    return " ".join([ax("X"), ax("Y"), ax("Z"), "abs=%d" % (1 if p.abs else 0), "eabs=%d" % (1 if p.eabs else 0),
+                     "unit=" + impl.hexf(p.unit), "e=" + impl.fnum(p.e + 0.0), "fil=" + impl.hexf(p.fil + 0.0),
+                     "hw=" + impl.hexf(p.hw + 0.0), "fw=%d" % (1 if p.fwret else 0)])
+
+
+RP_EXTRA = ["G92 X1 Y2", "G92 Z0.5", "G92 E0", "G92 E1.5", "M206 X1", "M206 Y-2 Z0.1", "G28 X", "G28 Y Z", "G28",
+            "G10", "G11", "G10 P1", "G20", "G21", "G90", "G91", "G1 X12 Y7 X", "G1 E", "G1 Z", "M117 X5", "T1",
+            "G2 X10 Y0 I5 J0", "G3 X0 Y10 I0 J5 E1", "G2 I0 J0 X5", "G1 X0 Y0", "G1 E-1", "G0 X5.5 Y-3 Z.2"]
+
+
+def printer_case(r):
+    """The Lean reference printer (Spec/Printer.lean, the semantics the motion and extrusion theorems
+    are stated against) and the Python reference printer used by the oracles execute the same
+    commands; compared after every command."""
+    from .refprinter import Printer
+    g90e = r.random() < 0.4
+    p = Printer(g90e)
+    p.execute("G28")
+    steps = [Step("rpnew", 1, eq(["ok"]))]
+    regions = gen.random_regions(r)
+    opts = gen.random_opts(r)
+    opts["max_len"] = 20
+    opts["arcs"] = r.random() < 0.5
+    evs = [e[1] for e in gen.encode_path(gen.gen_path(r, regions, opts)) if e[0] == "g"]
+    for _ in range(r.randint(0, 6)):
+        evs.insert(r.randint(1, len(evs)), r.choice(RP_EXTRA))
+    for cmd in evs:
+        p.execute(cmd)
+        steps.append(Step("rpexec %d %s" % (1 if g90e else 0, impl.hexs(cmd)), 1, eq(["ok " + rp_digest(p)]),
+                          label=cmd))
+        if p.error:
+            break
+    return Case("printer", steps, {"kind": "printer", "g90e": g90e, "cmds": evs})
+
+
 # ------------------------------------------------------------------------------- arc suite
 
 def arc_case(r):
